@@ -242,7 +242,7 @@ func actionsDeep(stmts []ast.Stmt, prefix string) []string {
 }
 
 // extraGens: further Gen files, added as properties are built.
-func extraGens(root, st *pkg) []*genFile { return []*genFile{genRecv(root), genSession(root), genAuth(root, st), genComponent(root, st), genKeepalive(root), genSupervisor(root), genC01(st), genRouter(root), genDispatch(st)} }
+func extraGens(root, st *pkg) []*genFile { return []*genFile{genRecv(root), genSession(root), genAuth(root, st), genComponent(root, st), genKeepalive(root), genSupervisor(root), genC01(st), genRouter(root), genDispatch(st), genSendPath(root)} }
 
 // assignsTo lists, in source order, the right-hand sides assigned to the selector `sel` (e.g. "t.isSecure") in fn,
 // interleaved with the calls named in `marks` (so that the order "Handshake, isSecure=false, VerifyHostname,
@@ -400,5 +400,18 @@ func genRouter(root *pkg) *genFile {
 	g.def("resultChanCap", "List String", leanStrList(makeChanCaps(root.fn("", "NewIQResultRoute"))), "capacity of the result channel made by NewIQResultRoute")
 	g.def("clientSendIQ", "List String", leanStrList(fnActions(root.fn("Client", "SendIQ"))), "flattened actions of Client.SendIQ")
 	g.def("componentSendIQ", "List String", leanStrList(fnActions(root.fn("Component", "SendIQ"))), "flattened actions of Component.SendIQ")
+	return g
+}
+
+func genSendPath(root *pkg) *genFile {
+	g := newGen("SendPath")
+	for _, f := range [][3]string{
+		{"clientSend", "Client", "Send"}, {"clientSendRaw", "Client", "SendRaw"}, {"clientSendAndStore", "Client", "sendAndStore"},
+		{"clientSendWithWriter", "Client", "sendWithWriter"}, {"componentSend", "Component", "Send"},
+		{"componentSendRaw", "Component", "SendRaw"}, {"componentSendWithWriter", "Component", "sendWithWriter"},
+		{"loggerWrite", "streamLogger", "Write"}, {"xmppWrite", "XMPPTransport", "Write"}, {"wsWrite", "WebsocketTransport", "Write"},
+	} {
+		g.def(f[0], "List String", leanStrList(fnActions(root.fn(f[1], f[2]))), "flattened actions of "+f[1]+"."+f[2])
+	}
 	return g
 }
